@@ -28,6 +28,48 @@ Definition copy_into {V} (dst src : amap V) : amap V := fold_left (fun d p => se
 
 Inductive act := ANoOp | AUpd | AStop.   (* IterActionNoOp / IterActionUpdateDataplane / IterActionNoOpStopIteration *)
 
+(* ---------- the batching protocol of IterBatched (both variants share it) ----------
+   Items come off the `range` in the order `rng`; `buf` is ks/vs (count = len(ks) throughout);
+   when the buffer reaches the batch size applyFn is called on it and answers (applied, err):
+   the first `applied` items are applied, an erring item is skipped, the rest is carried over.
+   After the range the tail loop keeps calling applyFn while items are left.
+   `resps` are applyFn's answers in call order.  Result: the calls made (batch shown, answer) and
+   the items never applied.  Where Go would panic (applied > len(ks)) firstn/skipn clamp; the
+   theorems' guard `resp_valid` excludes those answers. *)
+Definition respond {A} (buf : list A) (r : nat * bool) : list A * list A * list A :=
+  let t := skipn (fst r) buf in
+  (firstn (fst r) buf, (if snd r then firstn 1 t else []), (if snd r then tl t else t)).
+
+Fixpoint ploop1 {A} (bs : nat) (rng buf : list A) (resps : list (nat * bool))
+         (calls : list (list A * (nat * bool))) (rest : list A)
+  : list A * list (nat * bool) * list (list A * (nat * bool)) * list A :=
+  match rng with
+  | [] => (buf, resps, calls, rest)
+  | x :: rng' =>
+      let buf1 := buf ++ [x] in
+      if Nat.eqb (length buf1) bs then
+        let r := hd (0%nat, false) resps in
+        let '(_, sk, buf2) := respond buf1 r in
+        ploop1 bs rng' buf2 (tl resps) (calls ++ [(buf1, r)]) (rest ++ sk)
+      else ploop1 bs rng' buf1 resps calls rest
+  end.
+Fixpoint ptail {A} (buf : list A) (resps : list (nat * bool))
+         (calls : list (list A * (nat * bool))) (rest : list A)
+  : list (list A * (nat * bool)) * list A :=
+  match resps with
+  | [] => (calls, rest ++ buf)
+  | r :: resps' =>
+      match buf with
+      | [] => (calls, rest)
+      | _ :: _ => let '(_, sk, buf2) := respond buf r in ptail buf2 resps' (calls ++ [(buf, r)]) (rest ++ sk)
+      end
+  end.
+Definition proto {A} (bs : nat) (rng : list A) (resps : list (nat * bool)) : list (list A * (nat * bool)) * list A :=
+  let '(buf, resps', calls, rest) := ploop1 bs rng [] resps [] [] in ptail buf resps' calls rest.
+Definition applied_of {A} (calls : list (list A * (nat * bool))) : list A :=
+  concat (map (fun c => firstn (fst (snd c)) (fst c)) calls).
+Definition batch_size : nat := 128.
+
 Section Tracker.
   Variable V : Type.
   Variable veq : V -> V -> bool.          (* the tracker's valuesEqual *)
@@ -189,6 +231,22 @@ Section Tracker.
   Definition pd_iter_full (order : list N) (f : N -> act) (s : st) : st :=
     pd_iter (map (fun k => (k, f k)) (visit_order order (ND s))) s.
 
+  (* IterBatched (PendingUpdates / PendingDeletions): the range order is `order` (as in visit_order),
+     applyFn's answers are `resps`; an applied item does delete(desiredUpdates,k); inDataplaneAndDesired[k]=v
+     (resp. delete(inDataplaneNotDesired,k)) with the value captured when it came off the range. *)
+  Definition range_of (order : list N) (m : amap V) : list (N * V) :=
+    flat_map (fun k => match get m k with Some v => [(k, v)] | None => [] end) (visit_order order m).
+  Definition pu_apply (s : st) (kv : N * V) : st := mk (set (fst kv) (snd kv) (AD s)) (ND s) (del (fst kv) (DU s)) (dlen s).
+  Definition pd_apply (s : st) (kv : N * V) : st := mk (AD s) (del (fst kv) (ND s)) (DU s) (dlen s).
+  Definition pu_iter_batched (bs : nat) (order : list N) (resps : list (nat * bool)) (s : st)
+    : st * list (list (N * V) * (nat * bool)) :=
+    let calls := fst (proto bs (range_of order (DU s)) resps) in
+    (fold_left pu_apply (applied_of calls) s, calls).
+  Definition pd_iter_batched (bs : nat) (order : list N) (resps : list (nat * bool)) (s : st)
+    : st * list (list (N * V) * (nat * bool)) :=
+    let calls := fst (proto bs (range_of order (ND s)) resps) in
+    (fold_left pd_apply (applied_of calls) s, calls).
+
   (* SetDeltaTracker's DesiredSetView.LenUpperBound *)
   Definition len_upper_bound (s : st) : Z := (len (AD s) + len (DU s))%Z.
 
@@ -202,7 +260,15 @@ Section Tracker.
   | DpDelAll
   | Replace (kvs : list (N * V)) (err : bool)      (* ReplaceAllIter / ReplaceAllMap / ReplaceFromIter *)
   | IterUpd (tr : list (N * V * act))               (* PendingUpdates().Iter: (key, value given to f, answer) *)
-  | IterDel (tr : list (N * act)).                  (* PendingDeletions().Iter *)
+  | IterDel (tr : list (N * act))                   (* PendingDeletions().Iter *)
+  (* IterBatched: calls = what applyFn was shown and answered, in call order (recorded) *)
+  | IterBatchUpd (calls : list (list (N * V) * (nat * bool)))
+  | IterBatchDel (calls : list (list (N * V) * (nat * bool)))
+  | DesSetMany (kvs : list (N * V)).                (* Desired().Set for each, in order (bulk set-up) *)
+
+  (* range order as the recorded calls reveal it: first appearance of each key in the batches *)
+  Definition order_of_calls (calls : list (list (N * V) * (nat * bool))) : list N :=
+    nodup N.eq_dec (flat_map (fun c => keys (fst c)) calls).
 
   Definition step (fixed : bool) (s : st) (o : op) : st :=
     match o with
@@ -215,18 +281,90 @@ Section Tracker.
     | Replace kvs err => dp_replace fixed kvs err s
     | IterUpd tr => pu_iter (map (fun x => (fst (fst x), snd x)) tr) s
     | IterDel tr => pd_iter tr s
+    | IterBatchUpd calls => fst (pu_iter_batched batch_size (order_of_calls calls) (map snd calls) s)
+    | IterBatchDel calls => fst (pd_iter_batched batch_size (order_of_calls calls) (map snd calls) s)
+    | DesSetMany kvs => fold_left (fun s kv => des_set (fst kv) (snd kv) s) kvs s
+    end.
+  (* the batches the model's IterBatched shows to applyFn for that operation *)
+  Definition step_calls (s : st) (o : op) : list (list (N * V) * (nat * bool)) :=
+    match o with
+    | IterBatchUpd calls => snd (pu_iter_batched batch_size (order_of_calls calls) (map snd calls) s)
+    | IterBatchDel calls => snd (pd_iter_batched batch_size (order_of_calls calls) (map snd calls) s)
+    | _ => []
     end.
 
   Definition run (fixed : bool) (ops : list op) : st := fold_left (step fixed) ops st0.
+
+  (* ---------- felix/cachingmap CachingMap over an abstract dataplane map ----------
+     c_t: the DeltaTracker; c_dp: the real dataplane map behind the DataplaneMap interface;
+     c_loaded: cacheLoaded.  Failures are injected per call (recorded in the operation). *)
+  Record cst := mkc { c_t : st; c_dp : amap V; c_loaded : bool }.
+  Inductive cop :=
+  | COp (o : op)                                    (* Desired()/Dataplane() pass-through and raw tracker ops *)
+  | ExtSet (k : N) (v : V)                          (* the dataplane map changes behind the cache's back *)
+  | ExtDel (k : N)
+  | CLoad (fail : bool)                             (* LoadCacheFromDataplane; fail: Load() returns an error *)
+  | CUpd (loadfail : bool) (tr : list (N * V * bool))   (* ApplyUpdatesOnly; tr: Update(k,v) calls and whether they succeeded *)
+  | CDel (loadfail : bool) (tr : list (N * bool))       (* ApplyDeletionsOnly; tr: Delete(k) calls; true = nil or ErrNotExists *)
+  | CAll (loadfail : bool) (trd : list (N * bool)) (tru : list (N * V * bool)).  (* ApplyAllChanges *)
+
+  Definition c_load (fixed fail : bool) (c : cst) : cst * Z :=
+    if fail then (c, 1%Z)
+    else (mkc (dp_replace fixed (c_dp c) false (c_t c)) (c_dp c) true, 0%Z).
+  Definition c_maybe_load (fixed fail : bool) (c : cst) : cst * Z :=
+    if c_loaded c then (c, 0%Z) else c_load fixed fail c.
+
+  Definition c_upd_visit (ce : cst * Z) (x : N * V * bool) : cst * Z :=
+    let '(c, e) := ce in let k := fst (fst x) in
+    match get (DU (c_t c)) k with
+    | None => ce
+    | Some v => if snd x
+                then (mkc (pu_visit (c_t c) (k, AUpd)) (set k v (c_dp c)) (c_loaded c), e)   (* Update ok -> UpdateDataplane *)
+                else (c, (e + 1)%Z)                                                        (* Update failed -> NoOp, stays pending *)
+    end.
+  Definition c_del_visit (ce : cst * Z) (x : N * bool) : cst * Z :=
+    let '(c, e) := ce in let k := fst x in
+    match get (ND (c_t c)) k with
+    | None => ce
+    | Some _ => if snd x
+                then (mkc (pd_visit (c_t c) (k, AUpd)) (del k (c_dp c)) (c_loaded c), e)
+                else (c, (e + 1)%Z)
+    end.
+  Definition c_upd (fixed loadfail : bool) (tr : list (N * V * bool)) (c : cst) : cst * Z :=
+    let '(c1, e) := c_maybe_load fixed loadfail c in
+    if Z.eqb e 0 then fold_left c_upd_visit tr (c1, 0%Z) else (c1, e).
+  Definition c_del (fixed loadfail : bool) (tr : list (N * bool)) (c : cst) : cst * Z :=
+    let '(c1, e) := c_maybe_load fixed loadfail c in
+    if Z.eqb e 0 then fold_left c_del_visit tr (c1, 0%Z) else (c1, e).
+  Definition c_all (fixed loadfail : bool) (trd : list (N * bool)) (tru : list (N * V * bool)) (c : cst) : cst * Z :=
+    let '(c1, e1) := c_del fixed loadfail trd c in
+    let '(c2, e2) := c_upd fixed loadfail tru c1 in
+    (* ApplyAllChanges appends each phase's error (itself a slice) once: the count is the number of failed phases *)
+    (c2, ((if Z.eqb e1 0 then 0 else 1) + (if Z.eqb e2 0 then 0 else 1))%Z).
+
+  Definition cstep (fixed : bool) (c : cst) (o : cop) : cst * Z :=
+    match o with
+    | COp o => (mkc (step fixed (c_t c) o) (c_dp c) (c_loaded c), 0%Z)
+    | ExtSet k v => (mkc (c_t c) (set k v (c_dp c)) (c_loaded c), 0%Z)
+    | ExtDel k => (mkc (c_t c) (del k (c_dp c)) (c_loaded c), 0%Z)
+    | CLoad fail => c_load fixed fail c
+    | CUpd lf tr => c_upd fixed lf tr c
+    | CDel lf tr => c_del fixed lf tr c
+    | CAll lf trd tru => c_all fixed lf trd tru c
+    end.
+  Definition cst0 : cst := mkc st0 [] false.
 End Tracker.
 
 Arguments mkr {V}. Arguments oad {V}. Arguments ond {V}. Arguments nad {V}. Arguments nnd {V}. Arguments rdu {V}.
 Arguments mk {V}. Arguments AD {V}. Arguments ND {V}. Arguments DU {V}. Arguments dlen {V}.
 Arguments DesSet {V}. Arguments DesDel {V}. Arguments DesDelAll {V}. Arguments DpSet {V}.
 Arguments DpDel {V}. Arguments DpDelAll {V}. Arguments Replace {V}. Arguments IterUpd {V}. Arguments IterDel {V}.
+Arguments mkc {V}. Arguments c_t {V}. Arguments c_dp {V}. Arguments c_loaded {V}.
+Arguments COp {V}. Arguments ExtSet {V}. Arguments ExtDel {V}. Arguments CLoad {V}. Arguments CUpd {V}. Arguments CDel {V}. Arguments CAll {V}.
+Arguments IterBatchUpd {V}. Arguments IterBatchDel {V}. Arguments DesSetMany {V}.
 
 (* ---------- concrete instance used by the correspondence run: V = N ---------- *)
-Inductive kind := KExact | KCoarse | KSet.
+Inductive kind := KExact | KCoarse | KSet | KCache.
 (* KExact: valuesEqual = (==);  KCoarse: a/2 == b/2 (an equivalence coarser than identity);
    KSet: SetDeltaTracker (all values 0, valuesEqual = true). *)
 Definition veq_of (kd : kind) : N -> N -> bool :=
@@ -234,6 +372,7 @@ Definition veq_of (kd : kind) : N -> N -> bool :=
   | KExact => N.eqb
   | KCoarse => fun a b => N.eqb (N.div2 a) (N.div2 b)
   | KSet => fun _ _ => true
+  | KCache => N.eqb          (* CachingMap fixes valuesEqual to == *)
   end.
 
 (* sorted dump of a view, as the driver prints it (sorted by key, then value) *)
@@ -253,21 +392,34 @@ Record obs := Obs {
   o_pu : list (N * N); o_pulen : Z;        (* PendingUpdates().Iter (all NoOp) sorted, Len() *)
   o_pd : list N; o_pdlen : Z;              (* PendingDeletions().Iter (all NoOp) sorted, Len() *)
   o_gets : list (option N * option N * option N * option N);  (* per universe key: the four Get()s *)
-  o_ub : Z                                 (* sets: Desired().LenUpperBound(); maps: -1 *)
+  o_ub : Z;                                (* sets: Desired().LenUpperBound(); maps: -1 *)
+  o_calls : list (list (N * N));           (* IterBatched: the batches applyFn was shown (deletions: values 0) *)
+  o_real : list (N * N);                   (* CachingMap: the real dataplane map, sorted *)
+  o_nerr : Z                               (* CachingMap: number of errors the call returned (0 = nil) *)
 }.
 
-Definition observe (kd : kind) (univ : list N) (s : st N) : obs :=
+Definition observe (kd : kind) (univ : list N) (c : cst N) (calls : list (list (N * N))) (nerr : Z) : obs :=
+  let s := c_t c in
   Obs (kv_sort (des_iter N s)) (des_len N s)
       (kv_sort (dp_iter N s)) (dp_len N s)
       (kv_sort (DU s)) (pu_len N s)
       (map fst (kv_sort (ND s))) (pd_len N s)
       (map (fun k => (des_get N s k, dp_get N s k, pu_get N s k, pd_get N s k)) univ)
-      (match kd with KSet => len_upper_bound N s | _ => (-1)%Z end).
+      (match kd with KSet => len_upper_bound N s | _ => (-1)%Z end)
+      calls (kv_sort (c_dp c)) nerr.
 
-Fixpoint run_obs (fixed : bool) (kd : kind) (univ : list N) (s : st N) (ops : list (op N)) : list obs :=
+Definition shown_calls (s : st N) (o : cop N) : list (list (N * N)) :=
+  match o with
+  | COp (IterBatchUpd calls) => map fst (step_calls N s (IterBatchUpd calls))
+  | COp (IterBatchDel calls) => map (fun c => map (fun kv => (fst kv, 0)) (fst c)) (step_calls N s (IterBatchDel calls))
+  | _ => []
+  end.
+
+Fixpoint run_obs (fixed : bool) (kd : kind) (univ : list N) (c : cst N) (ops : list (cop N)) : list obs :=
   match ops with
   | [] => []
-  | o :: ops' => let s' := step N (veq_of kd) fixed s o in observe kd univ s' :: run_obs fixed kd univ s' ops'
+  | o :: ops' => let '(c', e) := cstep N (veq_of kd) fixed c o in
+                 observe kd univ c' (shown_calls (c_t c) o) e :: run_obs fixed kd univ c' ops'
   end.
 
 (* ---------- equality of observations ---------- *)
@@ -286,7 +438,9 @@ Definition obs_eqb (a b : obs) : bool :=
   kvl_eqb (o_pu a) (o_pu b) && Z.eqb (o_pulen a) (o_pulen b) &&
   nl_eqb (o_pd a) (o_pd b) && Z.eqb (o_pdlen a) (o_pdlen b) &&
   (Nat.eqb (length (o_gets a)) (length (o_gets b)) && forallb (fun p => g4_eqb (fst p) (snd p)) (combine (o_gets a) (o_gets b))) &&
-  Z.eqb (o_ub a) (o_ub b).
+  Z.eqb (o_ub a) (o_ub b) &&
+  (Nat.eqb (length (o_calls a)) (length (o_calls b)) && forallb (fun p => kvl_eqb (fst p) (snd p)) (combine (o_calls a) (o_calls b))) &&
+  kvl_eqb (o_real a) (o_real b) && Z.eqb (o_nerr a) (o_nerr b).
 Fixpoint obsl_eqb (a b : list obs) : bool :=
   match a, b with
   | [], [] => true
